@@ -407,6 +407,22 @@ def native_clause_violated(task, ns, args, kind, clause_src, lenient=False):
 
     def permitted(e):
         return any(k.__name__ in excs for k in type(e).__mro__)
+    if kind.startswith('exc-post:'):
+        # exceptional postcondition: only when the real code raises that exception
+        en = kind.split(':', 1)[1]
+        if okind != 'raise' or not any(k.__name__ == en for k in type(val).__mro__):
+            return False
+        env['exc'] = val
+        env['result'] = None
+        try:
+            src, olds = rewrite_old(clause_src)
+            for k, osrc in enumerate(olds):
+                env[f'__old_{k}'] = eval(osrc, old_env)
+            return not eval(src, env)
+        except NotImplementedError:
+            return False
+        except Exception:  # noqa
+            return not lenient
     if kind == 'post':
         if okind == 'raise':
             return (not permitted(val)) and not lenient
@@ -440,27 +456,62 @@ def native_clause_violated(task, ns, args, kind, clause_src, lenient=False):
     return False
 
 
-def native_search(task, kind, clause_src, seed, tries=600, lenient=False):
+def native_search(task, kind, clause_src, seed, tries=600, lenient=False, history=True):
     """seeded search for a concrete input on which the real code violates the clause.
-    Returns {param: python-source} or None."""
+    Returns {param: python-source} or None.
+
+    history: every other try is a two-call history in the same process - the previous input A is run first (its
+    outcome ignored), then B = A with a random subset of the parameters re-drawn (the others rebuilt from the same
+    source text, i.e. equal values in fresh objects), and the clause is checked on B.  A contract quantifies over the
+    state the function is called in; state hidden from the parameter shapes (a module- or class-level memo keyed on
+    part of the arguments) shows up exactly on such pairs.  The returned dict then carries the earlier call under
+    '__prelude__' (replayed first by the replay script)."""
     ns = native_namespace(task)
     rng = random.Random(seed * 7919 + 13)
+    prev = None
+
+    def build(srcs):
+        args = {n: eval(s, ns) for n, s in srcs.items()}
+        for n, sh in task.inst.items():
+            if isinstance(sh, Shared):
+                args[n] = args[sh.other]
+        if task.c.setup is not None and getattr(task.c.setup, 'native', None):
+            task.c.setup.native(args, ns)
+        return args
     for k in range(tries):
         ev = RandomEv(random.Random(rng.random()), sorted_lists=(k % 2 == 0))
         try:
             srcs = {n: sh.native(n, ev) for n, sh in task.inst.items() if not isinstance(sh, Shared)}
-            args = {n: eval(s, ns) for n, s in srcs.items()}
-            for n, sh in task.inst.items():
-                if isinstance(sh, Shared):
-                    args[n] = args[sh.other]
+            prelude = None
+            if history and prev is not None and k % 2 == 1 and len(srcs) >= 2:
+                kept = [n for n in srcs if rng.random() < 0.5]
+                if kept and len(kept) < len(srcs):
+                    for n in kept:
+                        srcs[n] = prev[n]
+                    prelude = prev
+            args = build(srcs)
         except Exception:  # noqa
             continue
-        if task.c.setup is not None and getattr(task.c.setup, 'native', None):
-            task.c.setup.native(args, ns)
         if not requires_ok(task, args, ns):
             continue
+        if prelude is not None:
+            try:
+                pargs = build(prelude)
+                if requires_ok(task, pargs, ns):
+                    native_run(task, pargs, ns)
+                else:
+                    prelude = None
+            except NativeTimeout:
+                continue
+            except Exception:  # noqa
+                prelude = None
+        else:
+            prev = srcs
         try:
             if native_clause_violated(task, ns, args, kind, clause_src, lenient=lenient):
+                if prelude is not None:
+                    srcs = dict(srcs)
+                    srcs['__prelude__'] = [prelude]
                 return srcs
         except NativeTimeout:
             continue
